@@ -140,7 +140,7 @@ def ops_of(q, acc=None):
     return acc
 
 
-def judge(run, cases, name="QueryCheck", chunk=40):
+def judge(run, cases, name="QueryCheck", chunk=40, module="QueryCheck"):
     """cases: list of {"idx":..., "qs":[{"q":..., "obs":[...]}]}. Returns list of rejects
     (case index, query index, obs index, expected)."""
     rejects = []
@@ -152,15 +152,15 @@ def judge(run, cases, name="QueryCheck", chunk=40):
         os.close(fd)
         try:
             tlc.write_json(path, part)
-            res = tlc.run_tlc("QueryCheck", "QueryCheck.cfg", env={"TRACE_FILE": path}, timeout=1800)
+            res = tlc.run_tlc(module, module + ".cfg", env={"TRACE_FILE": path}, timeout=1800)
         finally:
             os.unlink(path)
         run.add_tlc("%s[%d:%d]" % (name, base, base + len(part)), res)
         if res.violation:
-            raise tlc.TLCError("QueryCheck: %s\n%s" % (res.violation, tlc.tail(res.stdout)))
+            raise tlc.TLCError("%s: %s\n%s" % (module, res.violation, tlc.tail(res.stdout)))
         nq = sum(len(c["qs"]) for c in part)
         if res.distinct != nq:
-            raise tlc.TLCError("QueryCheck evaluated %d of %d (case, query) pairs\n%s" % (
+            raise tlc.TLCError(module + " evaluated %d of %d (case, query) pairs\n%s" % (
                 res.distinct, nq, tlc.tail(res.stdout)))
         for r in res.tagged.get("REJECT", []):
             rejects.append((base + r["tid"] - 1, r["qi"] - 1, r["oi"] - 1, r["expected"]))
